@@ -522,7 +522,10 @@ func c10ClientCancel(second, closeRace bool, b Bounds) *Scenario {
 				j.Go("m0", func() { started = true; c.Call(ctx, "m0", nil) })
 				j.Go("cancel", func() { vs.Await(func() bool { return started }, "await call"); cancel() })
 				if second {
-					j.Go("m1", func() { vs.Await(func() bool { return started }, "await call"); c.Notify(context.Background(), "m1", nil) })
+					j.Go("m1", func() {
+						vs.Await(func() bool { return started }, "await call")
+						c.Notify(context.Background(), "m1", nil)
+					})
 				}
 				if closeRace {
 					j.Go("close", func() { vs.Await(func() bool { return started }, "await call"); c.Close() })
